@@ -76,7 +76,7 @@ def make_requests(ctx):
     rng.shuffle(cells)
     texts = []
     for cell in cells[:ctx.pick(3, 6)]:
-        texts.append(gen.render(gen.synth_case(rng, cell, addons=False, overpressure=False)))
+        texts.append(gen.render(gen.synth_case(rng, cell, addons=False, overpressure=False, sdac=False)))
     for ex in rng.sample(['example3', 'example4', 'example10_HP', 'example11_AC', 'example13', 'example8', 'example9'], ctx.pick(2, 4)):
         case, raw = gen.example_case(ex)
         texts.append(gen.render(case, raw))
